@@ -1504,7 +1504,7 @@ func (c *c17) droppedErrors() {
 		}
 	}
 	c.r.Count("value_error_calls", n)
-	c.r.Require("value_error_calls", n, 8)
+	c.r.Require("value_error_calls", n, 4)
 }
 
 // ---------------------------------------------------------------------------------------------- R4
